@@ -58,6 +58,9 @@ def gen_graph(prng):
         # separate edges and must be retained independently
         multi = True
         edges = edges + [prng.choice(edges) for _ in range(prng.randrange(1, len(edges) + 2))]
+    if prng.random() < 0.12:
+        # self-loops (a configuration-model graph has them): an edge like any other for the draws, never joins anything
+        edges = edges + [[v, v] for v in prng.sample(range(n), prng.randrange(1, min(3, n) + 1))]
     prng.shuffle(edges)
     r = prng.random()
     if r < 0.05:
@@ -262,6 +265,10 @@ def star_scenarios(seed, tier):
                 cat.append((f"random-{i}", es, n, prng.choice((0.2, 0.5, 0.8))))
     out = [(t, {"edges": es, "n": n, "phi": p}) for t, es, n, p in cat]
     # the same law with the probability given as a numpy scalar (two catalogue entries)
+    # graphs with self-loops: the loop takes a draw like any edge and joins nothing
+    out.append(("loop-and-edge-phi0.5", {"edges": [[0, 0], [1, 2]], "n": 3, "phi": 0.5}))
+    out.append(("only-a-loop-phi0.7", {"edges": [[0, 0]], "n": 2, "phi": 0.7}))
+    out.append(("path-with-two-loops-phi0.4", {"edges": [[0, 1], [1, 2], [1, 1], [3, 3]], "n": 4, "phi": 0.4}))
     out.append(("star-M4-phi0.3-numpy-float64", {"edges": _star(4), "n": 5, "phi": 0.3, "phi_type": "np_float64"}))
     out.append(("two-disjoint-edges-phi0.5-numpy-float64", {"edges": [[0, 1], [2, 3]], "n": 4, "phi": 0.5, "phi_type": "np_float64"}))
     return out
